@@ -375,6 +375,7 @@ package url
 //@ func (*inputString).getCurrentAsByte
 //@   requires i != nil
 //@   modifies i.eof
+//@   ensures i.pointer < i.length ==> i.eof == old(i.eof)
 //@   loop 1 invariant 0 <= j && j <= $i
 
 //@ func (*inputString).remainingFromPointer
@@ -385,6 +386,7 @@ package url
 //@   requires cur(i)
 //@   ensures i.eof ==> !result
 //@   ensures result ==> (!i.eof && len(s) <= 4 * (i.length - i.pointer - 1))
+//@   ensures (result && len(s) >= 1 && s[0] < 128) ==> (i.pointer + 1 < i.length && i.runes[i.pointer + 1] == s[0])
 
 //@ func (*inputString).remainingIsInvalidPercentEncoded
 //@   requires cur(i) && 0 <= i.pointer
@@ -477,6 +479,7 @@ package url
 //@   requires tr != nil && tr.bs != nil
 //@   ensures len(result0) <= len(s)
 //@   ensures result1 == (len(result0) != len(s))   [C01]
+//@   ensures !result1 ==> result0 == s   [C01]
 
 //@ func (*Url).getSpecialScheme
 //@   requires u != nil && u.parser != nil
@@ -493,8 +496,8 @@ package url
 //@ func (*Url).cleanDefaultPort
 //@   requires u != nil && u.parser != nil
 //@   modifies u.port, u.decodedPort
-//@   ensures (special(u, u.scheme) && (old(u.port) == nil || defPort(u, u.scheme) == old(*u.port))) ==> (u.port == nil && u.decodedPort == 0)   [C04]
-//@   ensures !(special(u, u.scheme) && (old(u.port) == nil || defPort(u, u.scheme) == old(*u.port))) ==> (u.port == old(u.port) && u.decodedPort == old(u.decodedPort))   [C04]
+//@   ensures (special(u, u.scheme) && (old(u.port) == nil || defPort(u, u.scheme) == old(*u.port))) ==> (u.port == nil && u.decodedPort == 0)   [C04,C19]
+//@   ensures !(special(u, u.scheme) && (old(u.port) == nil || defPort(u, u.scheme) == old(*u.port))) ==> (u.port == old(u.port) && u.decodedPort == old(u.decodedPort))   [C04,C19]
 //@ func (*Url).getDefaultPort
 //@   requires u != nil && u.parser != nil
 //@   ensures !special(u, u.scheme) ==> result == 0   [C19]
@@ -560,7 +563,7 @@ package url
 
 //@ func (*Url).Clone
 //@   requires wf(u)
-//@   ensures result != nil && fresh(result) && wf(result)   [C13,C14]
+//@   ensures result != nil && fresh(result) && wf(result)   [C13,C14,C19]
 //@   ensures result.path != u.path && fresh(result.path) && (u.path.p != nil ==> fresh(result.path.p)) && (u.path.p == nil ==> result.path.p == nil)   [C13,C14]
 //@   ensures (u.host == nil) == (result.host == nil) && (u.host != nil ==> fresh(result.host) && *result.host == *u.host)   [C13,C14]
 //@   ensures (u.port == nil) == (result.port == nil) && (u.port != nil ==> fresh(result.port) && *result.port == *u.port)   [C13,C14]
@@ -591,8 +594,8 @@ package url
 //@   requires (stateOverride == StatePathStart || stateOverride == StateHost || stateOverride == StateHostname) ==> !url.path.opaque
 //@   requires stateOverride == StatePort ==> (url.host != nil && url.scheme != "file")
 //@   modifies url.*, url.path.*, url.path.p[..], url.validationErrors[..]
-//@   ensures (url == nil && result1 == nil) ==> (result0 != nil && fresh(result0) && wf(result0) && result0.parser == p)   [C02,C04]
-//@   ensures url != nil ==> wf(url)   [C02,C04]
+//@   ensures (url == nil && result1 == nil) ==> (result0 != nil && fresh(result0) && wf(result0) && result0.parser == p)   [C02,C04,C19]
+//@   ensures url != nil ==> wf(url)   [C02,C04,C19]
 //@   ensures url != nil ==> (result0 == url || result0 == nil)
 //@   ensures (url == nil && result1 == nil) ==> allFresh(result0)   [C13,C14]
 //@   ensures url != nil ==> keptArrays(url)
@@ -607,6 +610,20 @@ package url
 //@           *url.query == encWith(querySet(url), old(cleaned(urlOrRef)))   [C05 search-value]
 //@   ensures url != nil ==> url.searchParams == old(url.searchParams)   [C12]
 //@   ensures url != nil ==> url.parser == p
+//@   ensures (url != nil && stateOverride == StateSchemeStart) ==> special(url, url.scheme) == old(special(url, url.scheme))   [C05,C07,C09 scheme-setter-keeps-specialness]
+//@   ensures (url != nil && stateOverride == StateSchemeStart && url.scheme != old(url.scheme)) ==>
+//@           (url.inputUrl == old(cleaned(urlOrRef)) && hasSch(url) && url.scheme == specLowerRunes(inC(url), schEnd(url)))   [C05 protocol-value]
+//@   ensures (url == nil && result1 == nil) ==> result0.inputUrl == old(cleanedP(urlOrRef))   [C01,C06 input-cleaning]
+//@   ensures (url == nil && result1 == nil && hasSch(result0)) ==> result0.scheme == specLowerRunes(inC(result0), schEnd(result0))   [C01 scheme-value]
+//@   ensures (url == nil && result1 == nil && !hasSch(result0)) ==> (baseUrl != nil && result0.scheme == baseUrl.scheme)   [C01,C06 relative-reference-keeps-base-scheme]
+//@   ensures (url == nil && result1 == nil && firstHash(result0) == inN(result0)) ==> result0.fragment == nil   [C01,C06 no-hash-no-fragment]
+//@   ensures (url == nil && result1 == nil && firstHash(result0) < inN(result0)) ==> result0.fragment != nil   [C01,C06 hash-present]
+//@   ensures (url == nil && result1 == nil && firstHash(result0) < inN(result0) && p.opts.encodingOverride == nil) ==>
+//@           *result0.fragment == fragSeg(result0, inN(result0))   [C01,C06 hash-value]
+//@   ensures (url == nil && baseUrl != nil && result1 == nil && lawCase(result0)) ==> (result0.scheme == baseUrl.scheme && pathEq(result0.path, baseUrl.path)
+//@           && (shapeP(baseUrl) ==> authEq(result0, baseUrl)))   [C06 fragment-or-query-only-reference-keeps-base]
+//@   ensures (url == nil && baseUrl != nil && result1 == nil && (inN(result0) == 0 || startsHash(result0))) ==> boxEq(result0.query, baseUrl.query)   [C06 fragment-only-reference-keeps-query]
+//@   ensures (url == nil && baseUrl != nil && baseUrl.path.opaque && result1 == nil) ==> (hasSch(result0) || startsHash(result0))   [C06 opaque-base-accepts-only-fragment]
 //@   ensures (url != nil && stateOverride == StateQuery) ==> url.query != nil
 //@   ensures (url != nil && stateOverride == StateFragment) ==> url.fragment != nil
 //@   loop 1 modifies url.*, url.path.*, url.path.p[..], url.validationErrors[..], base.path.*, base.path.p[..], input.pointer, input.eof, bufv(buffer)
@@ -618,6 +635,7 @@ package url
 //@   loop 1 invariant old(url) != nil ==> (url.path == old(url.path) && (url.path.opaque ==> len(url.path.p) >= 1))
 //@   loop 1 invariant cur(input) && !input.eof && fresh(input) && input == pre(input)
 //@   loop 1 invariant url.inputUrl == pre(url.inputUrl) && (old(url) != nil ==> url.inputUrl == old(cleaned(urlOrRef)))
+//@   loop 1 invariant old(url) == nil ==> url.inputUrl == old(cleanedP(urlOrRef))
 //@   loop 1 invariant content(input.runes) == runesOf(url.inputUrl) && off(input.runes) == 0 && input.length == runeCount(url.inputUrl) && input.runes == pre(input.runes)
 //@   loop 1 invariant (stateOverride == StateFragment && p.opts.encodingOverride == nil) ==> bufv(buffer) == specEncStr(runesOf(url.inputUrl), input.pointer + 1,
 //@            runeCount(url.inputUrl), bsBits(fragSet(url).bs), fragSet(url).allBelow, fragSet(url) == nil, false)
@@ -658,7 +676,7 @@ package url
 //@   loop 1 invariant state == StateAuthority ==> runeCount(bufv(buffer)) <= input.pointer + 1
 //@   loop 1 invariant (state == StateSchemeStart || state == StateNoScheme || state == StateSpecialRelativeOrAuthority || state == StatePathOrAuthority
 //@            || state == StateRelative || state == StateRelativeSlash || state == StateSpecialAuthoritySlashes
-//@            || state == StateSpecialAuthorityIgnoreSlashes) ==> bufv(buffer) == ""
+//@            || state == StateSpecialAuthorityIgnoreSlashes || state == StateFile || state == StatePathStart) ==> bufv(buffer) == ""
 //@   loop 1 invariant (url.path.opaque && len(url.path.p) == 0) ==> state == StatePath
 //@   loop 1 invariant url.path.p == nil || fresh(url.path.p) || (old(url) != nil && arr(url.path.p) == old(arr(url.path.p)))
 //@   loop 1 invariant url.validationErrors == nil || fresh(url.validationErrors) || (old(url) != nil && arr(url.validationErrors) == old(arr(url.validationErrors)))
@@ -678,6 +696,34 @@ package url
 //@   loop 1 invariant url.port == nil || freshL(url.port) || (base != nil && url.port == base.port) || (old(url) != nil && url.port == pre(url.port))
 //@   loop 1 invariant url.query == nil || freshL(url.query) || (base != nil && url.query == base.query) || (old(url) != nil && url.query == pre(url.query))
 //@   loop 1 invariant url.fragment == nil || freshL(url.fragment) || (base != nil && url.fragment == base.fragment) || (old(url) != nil && url.fragment == pre(url.fragment))
+//@   loop 1 invariant state == StateSchemeStart ==> (input.pointer == -1 && specSchemeAll(inC(url), 0))
+//@   loop 1 invariant state == StateScheme ==> (0 <= input.pointer && specSchemeAll(inC(url), input.pointer + 1))
+//@   loop 1 invariant state == StateScheme ==> bufv(buffer) == specLowerRunes(inC(url), input.pointer + 1)
+//@   loop 1 invariant (!stateOverridden && state == StateNoScheme) ==> (!hasSch(url) && input.pointer == -1)
+//@   loop 1 invariant (!stateOverridden && state != StateSchemeStart && state != StateScheme && state != StateNoScheme && hasSch(url)) ==>
+//@            url.scheme == specLowerRunes(inC(url), schEnd(url))
+//@   loop 1 invariant (!stateOverridden && state != StateSchemeStart && state != StateScheme && state != StateNoScheme && state != StateRelative
+//@            && state != StateFile && !hasSch(url)) ==> (base != nil && url.scheme == base.scheme)
+//@   loop 1 invariant (!stateOverridden && (state == StateRelative || state == StateSpecialRelativeOrAuthority) && hasSch(url)) ==> base.scheme == url.scheme
+//@   loop 1 invariant (!stateOverridden && state == StateFile && !hasSch(url)) ==> (base != nil && base.scheme == "file")
+//@   loop 1 invariant (!stateOverridden && state == StateFile && hasSch(url)) ==> url.scheme == "file"
+//@   loop 1 invariant base != nil ==> baseCopy(base, baseUrl)
+//@   loop 1 invariant (base != nil && (state == StateSchemeStart || state == StateScheme || state == StateNoScheme || state == StateRelative || state == StateFile
+//@            || state == StateSpecialRelativeOrAuthority)) ==> (url.path != base.path && pathEq(base.path, baseUrl.path))
+//@   loop 1 invariant (!stateOverridden && base != nil && lawCase(url)) ==> (state == StateSchemeStart || state == StateNoScheme || state == StateRelative
+//@            || state == StateFile || state == StateQuery || state == StateFragment)
+//@   loop 1 invariant (!stateOverridden && base != nil && lawCase(url) && (state == StateSchemeStart || state == StateNoScheme || state == StateRelative
+//@            || state == StateFile)) ==> (input.pointer == -1 && url.username == "" && url.password == "" && url.host == nil && url.port == nil && url.query == nil)
+//@   loop 1 invariant (!stateOverridden && base != nil && lawCase(url) && (state == StateQuery || state == StateFragment)) ==> (url.scheme == baseUrl.scheme
+//@            && url.path == base.path && pathEq(base.path, baseUrl.path) && (shapeP(baseUrl) ==> authEq(url, baseUrl)))
+//@   loop 1 invariant (!stateOverridden && base != nil && (inN(url) == 0 || startsHash(url))) ==> state != StateQuery
+//@   loop 1 invariant (!stateOverridden && base != nil && state == StateFragment && startsHash(url)) ==> boxEq(url.query, baseUrl.query)
+//@   loop 1 invariant (!stateOverridden && state != StateSchemeStart && state != StateScheme && state != StateNoScheme && !hasSch(url)) ==>
+//@            (baseUrl != nil && (!baseUrl.path.opaque || startsHash(url)))
+//@   loop 1 invariant (!stateOverridden && state != StateFragment) ==> specNoHash(inC(url), input.pointer + 1)
+//@   loop 1 invariant (!stateOverridden && state != StateFragment) ==> url.fragment == nil
+//@   loop 1 invariant (!stateOverridden && state == StateFragment) ==> (url.fragment != nil && firstHash(url) <= input.pointer)
+//@   loop 1 invariant (!stateOverridden && state == StateFragment && p.opts.encodingOverride == nil) ==> bufv(buffer) == fragSeg(url, input.pointer + 1)
 //@   loop 1 decreases specRank(state), input.length - input.pointer
 //@   loop 2 modifies url.username, url.password, bb.pointer, bb.eof
 //@   loop 2 invariant cur(bb) && fresh(bb) && bb != input && url != nil
@@ -762,13 +808,16 @@ package url
 //@ func (*Url).SetProtocol
 //@   requires wf(u)
 //@   modifies u.*, u.path.*, u.path.p[..], u.validationErrors[..]
-//@   ensures wf(u)   [C02,C04]
+//@   ensures wf(u)   [C02,C04,C19]
 //@   ensures old(shapeP(u)) ==> shapeP(u)   [C04,C05 shape-preserved-by-setters]
 //@   ensures keptArrays(u)
+//@   ensures special(u, u.scheme) == old(special(u, u.scheme))   [C05,C07,C09 scheme-setter-keeps-specialness]
+//@   ensures u.scheme != old(u.scheme) ==> (u.inputUrl == old(cleaned(specHasSuffix(scheme, ":") ? scheme : scheme + ":")) && hasSch(u)
+//@           && u.scheme == specLowerRunes(inC(u), schEnd(u)))   [C05 protocol-value]
 //@ func (*Url).SetUsername
 //@   requires wf(u)
 //@   modifies u.username
-//@   ensures wf(u)   [C02,C04]
+//@   ensures wf(u)   [C02,C04,C19]
 //@   ensures old(shapeP(u)) ==> shapeP(u)   [C04,C05 shape-preserved-by-setters]
 //@   ensures (u.host == nil || *u.host == "" || u.scheme == "file") ==> u.username == old(u.username)   [C05]
 //@   ensures (!(u.host == nil || *u.host == "" || u.scheme == "file") && u.parser.opts.encodingOverride == nil) ==> u.username == specEncStr(runesOf(username),
@@ -776,7 +825,7 @@ package url
 //@ func (*Url).SetPassword
 //@   requires wf(u)
 //@   modifies u.password
-//@   ensures wf(u)   [C02,C04]
+//@   ensures wf(u)   [C02,C04,C19]
 //@   ensures old(shapeP(u)) ==> shapeP(u)   [C04,C05 shape-preserved-by-setters]
 //@   ensures (u.host == nil || *u.host == "" || u.scheme == "file") ==> u.password == old(u.password)   [C05]
 //@   ensures (!(u.host == nil || *u.host == "" || u.scheme == "file") && u.parser.opts.encodingOverride == nil) ==> u.password == specEncStr(runesOf(password),
@@ -784,21 +833,21 @@ package url
 //@ func (*Url).SetHost
 //@   requires wf(u)
 //@   modifies u.*, u.path.*, u.path.p[..], u.validationErrors[..]
-//@   ensures wf(u)   [C02,C04]
+//@   ensures wf(u)   [C02,C04,C19]
 //@   ensures old(shapeP(u)) ==> shapeP(u)   [C04,C05 shape-preserved-by-setters]
 //@   ensures keptArrays(u)
 //@   ensures old(u.path.opaque) ==> sameUrl(u)   [C05]
 //@ func (*Url).SetHostname
 //@   requires wf(u)
 //@   modifies u.*, u.path.*, u.path.p[..], u.validationErrors[..]
-//@   ensures wf(u)   [C02,C04]
+//@   ensures wf(u)   [C02,C04,C19]
 //@   ensures old(shapeP(u)) ==> shapeP(u)   [C04,C05 shape-preserved-by-setters]
 //@   ensures keptArrays(u)
 //@   ensures old(u.path.opaque) ==> sameUrl(u)   [C05]
 //@ func (*Url).SetPort
 //@   requires wf(u)
 //@   modifies u.*, u.path.*, u.path.p[..], u.validationErrors[..]
-//@   ensures wf(u)   [C02,C04]
+//@   ensures wf(u)   [C02,C04,C19]
 //@   ensures old(shapeP(u)) ==> shapeP(u)   [C04,C05 shape-preserved-by-setters]
 //@   ensures keptArrays(u)
 //@   ensures (old(u.host) == nil || old(*u.host) == "" || old(u.scheme) == "file") ==> sameUrl(u)   [C05]
@@ -807,14 +856,14 @@ package url
 //@ func (*Url).SetPathname
 //@   requires wf(u)
 //@   modifies u.*, u.path.*, u.path.p[..], u.validationErrors[..]
-//@   ensures wf(u)   [C02,C04]
+//@   ensures wf(u)   [C02,C04,C19]
 //@   ensures old(shapeP(u)) ==> shapeP(u)   [C04,C05 shape-preserved-by-setters]
 //@   ensures keptArrays(u)
 //@   ensures old(u.path.opaque) ==> sameUrl(u)   [C05]
 //@ func (*Url).SetHash
 //@   requires wf(u)
 //@   modifies u.*, u.path.*, u.path.p[..], u.validationErrors[..]
-//@   ensures wf(u)   [C02,C04]
+//@   ensures wf(u)   [C02,C04,C19]
 //@   ensures old(shapeP(u)) ==> shapeP(u)   [C04,C05 shape-preserved-by-setters]
 //@   ensures keptArrays(u)
 //@   ensures fragment == "" ==> u.fragment == nil   [C05]
@@ -826,7 +875,7 @@ package url
 //@ func (*Url).SetSearch
 //@   requires wf(u)
 //@   modifies u.*, u.path.*, u.path.p[..], u.validationErrors[..], u.searchParams.params, u.searchParams.params[..]
-//@   ensures wf(u)   [C02,C04]
+//@   ensures wf(u)   [C02,C04,C19]
 //@   ensures old(shapeP(u)) ==> shapeP(u)   [C04,C05 shape-preserved-by-setters]
 //@   ensures keptArrays(u)
 //@   ensures query == "" ==> u.query == nil   [C05,C12]
@@ -857,10 +906,24 @@ package url
 //@ func (*Url).Parse
 //@   requires wf(u)
 //@   ensures result1 == nil ==> (result0 != nil && fresh(result0) && wf(result0) && allFresh(result0))   [C02,C13,C14]
+//@   ensures result1 == nil ==> result0.inputUrl == old(cleanedP(ref))   [C01,C06 input-cleaning]
+//@   ensures (result1 == nil && hasSch(result0)) ==> result0.scheme == specLowerRunes(inC(result0), schEnd(result0))   [C01 scheme-value]
+//@   ensures (result1 == nil && !hasSch(result0)) ==> result0.scheme == u.scheme   [C06 relative-reference-keeps-base-scheme]
+//@   ensures (result1 == nil && firstHash(result0) == inN(result0)) ==> result0.fragment == nil   [C01,C06 no-hash-no-fragment]
+//@   ensures (result1 == nil && firstHash(result0) < inN(result0)) ==> result0.fragment != nil   [C01,C06 hash-present]
+//@   ensures (result1 == nil && firstHash(result0) < inN(result0) && u.parser.opts.encodingOverride == nil) ==> *result0.fragment == fragSeg(result0, inN(result0))   [C01,C06 hash-value]
+//@   ensures (result1 == nil && lawCase(result0)) ==> (result0.scheme == u.scheme && pathEq(result0.path, u.path) && (shapeP(u) ==> authEq(result0, u)))   [C06 fragment-or-query-only-reference-keeps-base]
+//@   ensures (result1 == nil && (inN(result0) == 0 || startsHash(result0))) ==> boxEq(result0.query, u.query)   [C06 fragment-only-reference-keeps-query]
+//@   ensures (u.path.opaque && result1 == nil) ==> (hasSch(result0) || startsHash(result0))   [C06 opaque-base-accepts-only-fragment]
 
 //@ func (*parser).Parse
 //@   requires okOpts(p)
 //@   ensures result1 == nil ==> (result0 != nil && fresh(result0) && wf(result0) && allFresh(result0) && result0.parser == p)   [C02,C13,C14]
+//@   ensures result1 == nil ==> result0.inputUrl == old(cleanedP(rawUrl))   [C01 input-cleaning]
+//@   ensures result1 == nil ==> (hasSch(result0) && result0.scheme == specLowerRunes(inC(result0), schEnd(result0)))   [C01 scheme-value]
+//@   ensures (result1 == nil && firstHash(result0) == inN(result0)) ==> result0.fragment == nil   [C01 no-hash-no-fragment]
+//@   ensures (result1 == nil && firstHash(result0) < inN(result0)) ==> result0.fragment != nil   [C01 hash-present]
+//@   ensures (result1 == nil && firstHash(result0) < inN(result0) && p.opts.encodingOverride == nil) ==> *result0.fragment == fragSeg(result0, inN(result0))   [C01 hash-value]
 //@ func (*parser).ParseRef
 //@   requires okOpts(p)
 //@   ensures result1 == nil ==> (result0 != nil && fresh(result0) && wf(result0) && allFresh(result0))   [C02,C13,C14]
@@ -1110,6 +1173,7 @@ package url
 //@   loop 1 invariant input.pointer >= 0 && (input.eof || c == input.runes[input.pointer]) && (input.eof ==> c == 0xFFFD)
 //@   loop 1 invariant arr(u.validationErrors) == old(arr(u.validationErrors)) || fresh(u.validationErrors)
 //@   loop 1 invariant arr(u.validationErrors) == pre(arr(u.validationErrors)) || freshL(u.validationErrors)
+//@   loop 1 invariant forall j int :: (pieceIdx <= j && j < 8) ==> address[j] == 0   [C08 unparsed-pieces-are-zero]
 //@   loop 1 decreases input.length - input.pointer
 //@   loop 2 modifies input.pointer, input.eof
 //@   loop 2 invariant cur(input) && 0 <= length && length <= 4 && 0 <= value && value < 65536 && (length == 0 ==> (value == 0 && !input.eof))
@@ -1123,6 +1187,8 @@ package url
 //@   loop 3 invariant input.pointer >= 0 && (input.eof || c == input.runes[input.pointer]) && (input.eof ==> c == 0xFFFD)
 //@   loop 3 invariant arr(u.validationErrors) == old(arr(u.validationErrors)) || fresh(u.validationErrors)
 //@   loop 3 invariant arr(u.validationErrors) == pre(arr(u.validationErrors)) || freshL(u.validationErrors)
+//@   loop 3 invariant forall j int :: (pieceIdx < j && j < 8) ==> address[j] == 0   [C08 unparsed-pieces-are-zero]
+//@   loop 3 invariant ((numbersSeen == 0 || numbersSeen == 2 || numbersSeen == 4) && pieceIdx < 8) ==> address[pieceIdx] == 0   [C08 unparsed-pieces-are-zero]
 //@   loop 3 decreases input.length - input.pointer
 //@   loop 4 modifies u.validationErrors, u.validationErrors[..], input.pointer, input.eof
 //@   loop 4 invariant cur(input) && -1 <= ipv4Piece && ipv4Piece <= 255 && (ipv4Piece >= 0 || (specIsDigit(c) && !input.eof))   [C08]
@@ -1133,6 +1199,10 @@ package url
 //@   loop 4 decreases input.length - input.pointer
 //@   loop 5 modifies address[..]
 //@   loop 5 invariant address != nil && fresh(address) && 0 <= pieceIdx && pieceIdx <= 7 && 0 <= swaps && 0 <= compress && compress + swaps <= 8 && swaps <= pieceIdx + 1
+//@   loop 5 invariant pieceIdx == 7 - (pre(swaps) - swaps) && compress + swaps <= pieceIdx + 1 && compress == pre(compress)
+//@   loop 5 invariant forall j int :: (0 <= j && j < compress + swaps) ==> address[j] == pre(address[j])   [C08 pieces-before-compression-stay]
+//@   loop 5 invariant forall j int :: (pieceIdx < j && j <= 7) ==> address[j] == pre(address[compress + j - 8 + swaps])   [C08 pieces-after-compression-move-to-the-end]
+//@   loop 5 invariant forall j int :: (compress + swaps <= j && j <= pieceIdx) ==> address[j] == 0   [C08 compression-is-zero-filled]
 //@   loop 5 decreases swaps
 
 //@ func (*IPv6Addr).String
